@@ -465,6 +465,8 @@ def finish(prop, tier, seed, started, coverage, mismatches, explains=None, assum
                        "standalone": bool(m.case.meta.get("standalone") or m.case.meta.get("files")),
                        "expected_exit": m.case.meta.get("exit"), "accept": m.case.accept,
                        "expected_stdout_of_case": m.case.expected, "fault": m.case.fault,
+                       "dispatch": hasattr(m.case, "never"), "never": getattr(m.case, "never", None),
+                       "exit_code": getattr(m.case, "exit_code", None),
                        "observed": m.observed, "detail": m.detail, "meta": m.case.meta}, f, indent=1)
         lines.append(f"VIOLATION property={prop} replay={path}  # {m.kind} :: {m.case.key} {m.detail[:120]!r}")
     coverage = dict(coverage)
@@ -497,8 +499,21 @@ def replay(path):
     """re-executes one recorded case without any explorer"""
     rec = json.load(open(path))
     root, mod = setup_workdir("replay")
-    res = run_capy(os.path.join(root, "job"), rec["files"], mod)
+    res = run_capy(os.path.join(root, "job"), rec["files"], mod, env_extra={"CASE": "0"})
     print(json.dumps(res.summary(), indent=1))
+    if rec.get("dispatch"):
+        from . import dispatch
+        if res.errors or res.panicked or res.internal_error or res.compile_rc != 0:
+            print("REPLAY: reproduced (not compiled cleanly)")
+            sys.exit(1)
+        c = dispatch.PCase(rec["case"], "", rec["expected_stdout_of_case"], fault=rec.get("fault"), never=rec.get("never"),
+                           exit_code=rec.get("exit_code") or 0)
+        parts = res.run_out.split(b"\n@")
+        st = int(parts[1].split(b"\n")[0]) if len(parts) == 2 else -1
+        rc = (st >> 8) & 0xFF if (st & 0x7F) == 0 else -(st & 0x7F)
+        j = dispatch.judge(c, rc, parts[0], res.timed_out)
+        print("REPLAY: no failure reproduced" if j is None else f"REPLAY: reproduced ({j[0]}: {j[2]})")
+        sys.exit(0 if j is None else 1)
     exp = rec.get("expected_stdout_of_case")
     if rec.get("standalone"):
         got = res.run_out.decode("utf8", "replace")
